@@ -199,6 +199,8 @@ def param_case(fn, threads):
     with ParamStats(fn) as ps:
         obs = ps.stats(threads=threads)
         model, thresh = ps._model, ps._r2_inpaint_thresh
+        # the statistics are those of the file: a second call on the same open object (another thread count) reports them again
+        again = ps.stats(threads=1 if threads != 1 else 2)
     with rio.open(fn) as ds:
         tiles = []
         for b in range(ds.count):
@@ -209,7 +211,15 @@ def param_case(fn, threads):
                 bl.append([float(v) for v in sub.compressed()])
             tiles.append(bl)
         count = ds.count
-    return dict(obs=obs, tiles=tiles, model=model, thresh=thresh, count=count)
+    def close(a, b):
+        import math
+        try:
+            a, b = float(a), float(b)
+        except (TypeError, ValueError):
+            return str(a) == str(b)
+        return (math.isnan(a) and math.isnan(b)) or abs(a - b) <= 1e-7 * (1 + abs(b))
+    repeat_ok = len(again) == len(obs) and all(set(x) == set(y) and all(close(x[k], y[k]) for k in x) for x, y in zip(obs, again))
+    return dict(obs=obs, tiles=tiles, model=model, thresh=thresh, count=count, repeat_ok=bool(repeat_ok), again=again)
 
 
 def encode_param(res):
